@@ -375,6 +375,56 @@ def check_unreduced_split(ctx, src, tgt, radius, desc):
             ctx.case("unreduced_split", (desc, rtype, sg, npr), nontrivial=True, sample={"input": inp} if sg == 3 and rtype == "nn" else None)
 
 
+def check_thin_targets(ctx, src, tgt, radius, desc):
+    """targets of one column and 1-3 rows cut into one-row segments, searched by worker processes with k >= 2: every segment then holds a single
+    target location, the shape in which a result array with a neighbour axis is easiest to get wrong.  Against the plain call."""
+    from pyresample import geometry, kd_tree
+    tlo, tla = kc.lonlats(tgt)
+    tlo, tla = np.atleast_2d(tlo), np.atleast_2d(tla)
+    ok = np.argwhere(np.isfinite(tlo) & np.isfinite(tla) & (np.abs(tlo) <= 180) & (np.abs(tla) <= 90))
+    if len(ok) == 0:
+        return
+    rows = int(ctx.rng.choice([1, 2, 3]))
+    pick = [tuple(ok[int(ctx.rng.randrange(len(ok)))]) for _ in range(rows)]
+    lons = np.array([[tlo[p]] for p in pick], dtype=float)
+    lats = np.array([[tla[p]] for p in pick], dtype=float)
+    thin = geometry.SwathDefinition(lons, lats)
+    slo, sla = kc.lonlats(src)
+    k = int(ctx.rng.choice([2, 3, 4]))
+    tie = _brute_force_scan(slo.ravel(), sla.ravel(), lons.ravel(), lats.ravel(), radius, k)[0]
+    if tie:
+        ctx.count("skipped.tie")
+        return
+    ids = np.arange(slo.size, dtype=np.float64).reshape(src.shape)
+
+    def wf(dist):
+        return np.where(dist < radius / 3, 1.0, 0.25)
+    inp0 = {"pair": desc + f" -> thin target {rows}x1", "n_src": int(slo.size), "n_tgt": rows, "radius": float(radius), "k": k,
+            "source": kc.describe(src), "target": kc.describe(thin)}
+    calls = {"gauss": lambda **kw: kd_tree.resample_gauss(src, ids, thin, radius, radius / 2, neighbours=k, epsilon=0, fill_value=None, with_uncert=True, **kw),
+             "custom": lambda **kw: kd_tree.resample_custom(src, ids, thin, radius, wf, neighbours=k, epsilon=0, fill_value=-1, **kw)}
+    for tname, call in calls.items():
+        with warnings.catch_warnings():
+            warnings.simplefilter("ignore")
+            try:
+                base = call(reduce_data=False, segments=1, nprocs=1)
+            except Exception as e:  # noqa
+                ctx.fail("kd_tree", f"plain call raised {type(e).__name__}: {e}", {**inp0, "type": tname}, size=int(slo.size) + rows)
+                continue
+            for sg, npr in ((rows, 2), (1, 2), (rows, 1)):
+                inp = {**inp0, "type": tname, "reduce_data": False, "segments": sg, "nprocs": npr}
+                ctx.case("thin_target", [desc, rows, k, tname, sg, npr, float(radius)], nontrivial=npr > 1 or sg > 1)
+                try:
+                    out = call(reduce_data=False, segments=sg, nprocs=npr)
+                except Exception as e:  # noqa
+                    ctx.fail("kd_tree", f"raised {type(e).__name__}: {e} (the plain call does not)", inp,
+                             tags={"cause": "raises"}, size=int(slo.size) + rows)
+                    continue
+                if not _same(base, out):
+                    ctx.fail("kd_tree", "result differs from the plain single-segment, single-process, unreduced call", inp,
+                             tags={"cause": "organisation", "reduce_data": False, "segments_gt1": sg > 1, "nprocs_gt1": npr > 1}, size=int(slo.size) + rows)
+
+
 def _f7_reference_window(b_lons, b_lats, lons, lats, radius):
     """FROZEN copy of data_reduce._get_valid_index as it stands with known finding F7 (sin-for-cos longitude buffer, longitude
     extent from sides 2 and 4 only).  It pins the finding: a window that drops a needed location is the KNOWN finding only if
@@ -649,6 +699,13 @@ def run(ctx):
             continue
         check(ctx, src, tgt, radius, desc)
         done += 1
+    nthin = 0
+    while nthin < (4 if ctx.quick else 40):
+        src, tgt, radius, desc = kc.geometry_pair(ctx.rng, 60, 40, invalid=True)
+        if radius == 0.0 or len(tgt.shape) < 1:
+            continue
+        check_thin_targets(ctx, src, tgt, radius, desc)
+        nthin += 1
     few = ("nn", "gauss") if ctx.quick else None
     for src, tgt, radius, desc, segs in _big_target_pairs(ctx):
         check(ctx, src, tgt, radius, desc, segs=segs, with_nprocs=not ctx.quick, types=few, reuse=not ctx.quick, light=ctx.quick)
